@@ -575,6 +575,12 @@ impl SyncClient for ThreadedClient {
     }
 }
 
+/// Verification facade hook: the websocket read/write adapter over an arbitrary in-memory stream (no handshake).
+#[cfg(all(feature = "verif", feature = "threaded-websockets"))]
+pub(crate) fn verif_wrap_websocket<T>(stream: T) -> impl Read + Write where T : Read + Write {
+    WebsocketStreamWrapper::new(tungstenite::protocol::WebSocket::from_raw_socket(stream, tungstenite::protocol::Role::Client, None))
+}
+
 pub(crate) fn create_runtime_states<T>(threaded_config: ThreadedOptions, connection_factory: ThreadedConnectionFactory<T>) -> (std::sync::mpsc::Sender<OperationOptions>, ClientRuntimeState<T>) where T : Read + Write + Send + Sync + 'static {
     let (sender, receiver) = std::sync::mpsc::channel();
 
